@@ -1,7 +1,7 @@
 (* C05 — row access is exact for every on-disk encoding and chunking.
    Property theorems only: each is closed by `exact <lemma>`. *)
 From Coq Require Import List Arith ZArith Bool Lia.
-From CTM Require Import Base.Sx Model.Sparse Model.Transpose Proofs.SparseP Proofs.SparseCscP.
+From CTM Require Import Base.Sx Model.Sparse Model.Transpose Proofs.SparseP Proofs.SparseBatchP Proofs.SparseCscP.
 Import ListNotations.
 
 (* for every number of rows n and chunk size c >= 1 the iterator's chunk list exists
@@ -80,10 +80,76 @@ Theorem c05_encodings_agree : forall (d : dense) mr mc nr nc c1 c2 c3 E L Lc,
 Proof. exact encodings_agree. Qed.
 Print Assumptions c05_encodings_agree.
 
-(* NOT YET PROVED (covered by the correspondence check only):
-   c05_get_batch_exact   : duplicate-free in-range row list -> csr_get_batch / dense_get_batch
-                           return those rows in the requested order
-   c05_get_batch_rejects : a duplicate, an out-of-range index or the empty list -> Err *)
+(* ---- get_batch: an arbitrary list of rows.
+   CSRRowIterator.get_batch (= _load_disjoint_csr: argsort the requested rows,
+   merge_index_list into ranges of consecutive rows, _load_sparse each range, merge_csr,
+   un-sort; then densify): for a well-formed CSR matrix and EVERY non-empty
+   duplicate-free list of rows below n_rows, of any length and in any order, the result
+   is exactly those rows of the dense view, in the REQUESTED order.  (Rows are in range
+   by hypothesis, so the default [] of nth is never used.) *)
+Theorem c05_get_batch_exact : forall m nr nc rows,
+  wf_csr m nr nc -> no_dup_minor m ->
+  rows <> [] -> NoDup rows -> Forall (fun r => r < nr) rows ->
+  csr_get_batch rows nc m = Ok (map (fun r => nth r (dense_of m nr nc) []) rows).
+Proof. exact csr_get_batch_exact. Qed.
+Print Assumptions c05_get_batch_exact.
+
+(* the sparse intermediate (what amalgamate_h5ad writes): _load_disjoint_csr returns a
+   well-formed duplicate-free CSR matrix with one row per requested row whose dense view
+   is the requested rows in the requested order *)
+Theorem c05_load_disjoint_exact : forall m nr nc rows,
+  wf_csr m nr nc -> no_dup_minor m ->
+  rows <> [] -> NoDup rows -> Forall (fun r => r < nr) rows ->
+  exists b, load_disjoint_csr rows m = Ok b /\
+    wf_csr b (length rows) nc /\ no_dup_minor b /\
+    dense_of b (length rows) nc = map (fun r => nth r (dense_of m nr nc) []) rows.
+Proof. exact load_disjoint_exact. Qed.
+Print Assumptions c05_load_disjoint_exact.
+
+(* DenseArrayRowIterator.get_batch (sort, h5py point selection, scatter back) *)
+Theorem c05_get_batch_exact_dense : forall (d : dense) nr rows,
+  length d = nr -> rows <> [] -> NoDup rows -> Forall (fun r => r < nr) rows ->
+  dense_get_batch rows nr d = Ok (map (fun r => nth r d []) rows).
+Proof. exact dense_get_batch_exact. Qed.
+Print Assumptions c05_get_batch_exact_dense.
+
+(* AnnDataRowIterator.get_batch on a CSC matrix (conversion, then the CSR get_batch),
+   for every budget of the conversion *)
+Theorem c05_get_batch_exact_csc : forall m rows n_rows n_cols E L Lc,
+  wf_comp m n_rows -> length (ptr m) = S n_cols -> length (dat m) = length (idx m) ->
+  no_dup_minor m -> 1 <= L -> 1 <= Lc ->
+  rows <> [] -> NoDup rows -> Forall (fun r => r < n_rows) rows ->
+  let M := map (fun r => map (fun j => cell m j r) (seq 0 n_cols)) (seq 0 n_rows) in
+  csc_get_batch m rows n_rows n_cols E L Lc = Ok (map (fun r => nth r M []) rows).
+Proof. exact csc_get_batch_exact. Qed.
+Print Assumptions c05_get_batch_exact_csc.
+
+(* every other list is refused, never answered with other rows: the empty list, a list
+   with a duplicate, a list with a row >= n_rows.  The sparse path fails with whatever
+   exception the first failing step raises (IndexError on an empty array, on the merged
+   pointer array, ...): the model's error value; only the number of rows of the matrix
+   matters (length (ptr m) = n_rows + 1), no well-formedness.  The dense path (h5py
+   point selection) always answers EReject. *)
+Theorem c05_get_batch_rejects : forall m nr nc rows,
+  length (ptr m) = S nr ->
+  rows = [] \/ ~ NoDup rows \/ Exists (fun r => nr <= r) rows ->
+  exists e, csr_get_batch rows nc m = Err e.
+Proof. exact csr_get_batch_rejects. Qed.
+Print Assumptions c05_get_batch_rejects.
+
+Theorem c05_get_batch_rejects_dense : forall (d : dense) nr rows,
+  rows = [] \/ ~ NoDup rows \/ Exists (fun r => nr <= r) rows ->
+  dense_get_batch rows nr d = Err EReject.
+Proof. exact dense_get_batch_rejects. Qed.
+Print Assumptions c05_get_batch_rejects_dense.
+
+Theorem c05_get_batch_rejects_csc : forall m rows n_rows n_cols E L Lc,
+  wf_comp m n_rows -> length (ptr m) = S n_cols -> length (dat m) = length (idx m) ->
+  1 <= L -> 1 <= Lc ->
+  rows = [] \/ ~ NoDup rows \/ Exists (fun r => n_rows <= r) rows ->
+  exists e, csc_get_batch m rows n_rows n_cols E L Lc = Err e.
+Proof. exact csc_get_batch_rejects. Qed.
+Print Assumptions c05_get_batch_rejects_csc.
 
 (* non-vacuity: a 3 x 4 CSR matrix with an empty row satisfies the hypotheses *)
 Definition c05_ex : comp :=
@@ -131,3 +197,27 @@ Proof.
     destruct D as [ -> | [ -> | -> ] ]; vm_compute; apply NoDup_nil.
   - vm_compute. reflexivity.
 Qed.
+
+(* get_batch on the 3 x 4 example: rows [2; 0] satisfy the hypotheses of
+   c05_get_batch_exact (non-empty, duplicate-free, below 3, not sorted, not contiguous)
+   and come back in that order from all three encodings; a duplicate, a row out of
+   range and the empty list are refused *)
+Example c05_example_get_batch :
+  [2; 0] <> [] /\ NoDup [2; 0] /\ Forall (fun r => r < 3) [2; 0] /\
+  csr_get_batch [2; 0] 4 c05_ex = Ok [[8; 9; 0; 11]; [0; 1; 2; 3]]%Z /\
+  dense_get_batch [2; 0] 3 (dense_of c05_ex 3 4) = Ok [[8; 9; 0; 11]; [0; 1; 2; 3]]%Z /\
+  csc_get_batch c05_ex_csc [2; 0] 3 4 1 1 1 = Ok [[8; 9; 0; 11]; [0; 1; 2; 3]]%Z /\
+  load_disjoint_csr [2; 0] c05_ex =
+    Ok {| ptr := [0; 3; 6]; idx := [0; 1; 3; 1; 2; 3]; dat := [8; 9; 11; 1; 2; 3]%Z |}.
+Proof.
+  split; [discriminate|]. split; [repeat (apply NoDup_cons; [cbn [In]; lia|]); apply NoDup_nil|].
+  split; [repeat (apply Forall_cons; [lia|]); apply Forall_nil|].
+  vm_compute. repeat split; reflexivity.
+Qed.
+Example c05_example_get_batch_rejects :
+  csr_get_batch [1; 1] 4 c05_ex = Err EIndex /\ csr_get_batch [0; 3] 4 c05_ex = Err EIndex /\
+  csr_get_batch [] 4 c05_ex = Err EIndex /\ csr_get_batch [5] 4 c05_ex = Err EIndex /\
+  dense_get_batch [1; 1] 3 (dense_of c05_ex 3 4) = Err EReject /\
+  dense_get_batch [0; 3] 3 (dense_of c05_ex 3 4) = Err EReject /\
+  dense_get_batch [] 3 (dense_of c05_ex 3 4) = Err EReject.
+Proof. vm_compute. repeat split; reflexivity. Qed.
